@@ -27,14 +27,14 @@ def _variants():
     import itertools
     keys = ("zpeCutoff", "projBandIndices", "pyProjTotals", "weightsByValue")
     allv = [dict(zip(keys, v)) for v in itertools.product((True, False), repeat=4)]
-    first = [dict(zip(keys, (True, True, True, False))),      # the tree after the first round of repairs
-             dict(zip(keys, (True, True, True, True))),       # everything repaired
+    first = [dict(zip(keys, (True, True, True, True))),       # everything repaired (the current tree)
+             dict(zip(keys, (True, True, True, False))),      # the tree after the first round of repairs
              dict(zip(keys, (False, False, False, False)))]   # the pinned tree
     return first + [v for v in allv if v not in first]
 
 
 VARIANT_ORDER = _variants()
-ALL_REPAIRED = VARIANT_ORDER[1]
+ALL_REPAIRED = VARIANT_ORDER[0]
 
 JUDGE_TRACE = dict(init="TInit", next="TNext", vars="tvars", cond='pc = "done"')
 IMPL_INVS = ["ImplNoError", "ImplExact", "ImplProjExact", "ImplFinite", "ImplTemps", "ImplTerms", "ImplZeroPoint", "ImplZeroT",
@@ -731,7 +731,13 @@ def phase_api(ctx):
 ARGS_INVS = ["InvRangeIsTheGrid", "ImplRange", "ConformsRange", "InvProjectionRefusedOrCorrect",
              "ImplProjectionRefusedOrCorrect", "ConformsGuard", "ImplYamlParses", "ImplYamlNoNonFinite", "ImplYamlRows",
              "ImplYamlValues", "ImplYamlEnergy", "ImplYamlHeader", "ImplYamlNatom", "ImplYamlProjected"]
-ARGS_VARIANTS = [dict(guardsProjection=g, rangeStopsAtMax=r) for g, r in ((False, False), (True, True), (False, True), (True, False))]
+ARGS_VARIANTS = [dict(guardsProjection=g, rangeStopsAtMax=r) for g, r in ((True, False), (True, True), (False, False), (False, True))]
+# Judged by TLC all the same, but OUTSIDE the statement of C10 (which is about the values of F, S, C_V for the temperatures
+# and modes given): how (t_min, t_max, t_step) becomes a temperature list, and the natom line of the yaml header.  A failure
+# of these is recorded in the evidence as an observed deviation, not reported as a violation.
+OUTSIDE_C10 = {"InvRangeIsTheGrid": "set_temperature_range keeps a grid point in (t_max, t_max + t_step/2), e.g. (0, 26, 10) -> 30 K",
+               "ImplRange": "set_temperature_range keeps a grid point in (t_max, t_max + t_step/2), e.g. (0, 26, 10) -> 30 K",
+               "ImplYamlNatom": "thermal_properties.yaml prints natom = (number of selected bands) // 3 when band_indices is used"}
 
 
 def phase_args(ctx):
@@ -793,8 +799,12 @@ def phase_args(ctx):
     ctx.extra["args_violated"] = final
     ctx.extra["args_events"] = dict(range=len(rev), guard=len(gev), yaml=len(yev))
     bad_range = [dict(kwargs=e["kw"], route=e["route"], ticks_per_K=e["args"]["den"], reported_ticks=e["got"][-4:]) for e in rev]
+    observed = []
     for n in final:
         if n.startswith("Conforms"):
+            continue
+        if n in OUTSIDE_C10:
+            observed.append(dict(invariant=n, status="observed deviation, outside C10", what=OUTSIDE_C10[n]))
             continue
         if "Range" in n:
             # a recorded call whose last temperature lies beyond t_max
@@ -808,9 +818,15 @@ def phase_args(ctx):
         ctx.violation(pre + n, ("TLC: %s violated in ThermalArgs.tla for the identified variant %s" % (n, identified)) if n.startswith("Inv")
                       else "C10 requirement %s fails on values recorded from the real code" % n,
                       dict(invariant=n, variant=identified, witness=wit))
+    if observed:
+        w = [b for b, e in zip(bad_range, rev) if e["args"]["gmax"] and e["got"] and e["got"][-1] > max(e["args"]["tmax"], e["args"]["tmin"], 0)]
+        ctx.extra["observed_deviations_outside_C10"] = observed + [dict(range_witnesses=w[:3], yaml_witness=ywit.get("yaml", {}).get("band_indices"))]
+        for o in observed:
+            print("OBSERVED (outside C10, not a violation): %s - %s" % (o["invariant"], o["what"]))
 
 
 def run(ctx):
+    ctx.extra["observed_deviations_outside_C10"] = []
     ctx.rule = ("a case is one (mesh levels, weights, cutoff, pretend_real, band_indices, is_projection, classical, "
                 "temperature list) configuration run on both code paths; non-trivial = distinct configuration id per "
                 "phase (decode / replay) plus distinct (x-class, kernel, lang) samples and identity rows")
